@@ -14,10 +14,7 @@ class Dispatcher(object):
         return wrap
 
     def get_for(self, fname):
-        try:
-            return self._registry_[fname]
-        except KeyError:
-            raise SyntaxError('Function not found for %s' % fname)
+        return self._registry_.get(fname)
 
     def __iter__(self):
         return iter(registry.values())
